@@ -42,28 +42,38 @@ ALL_ORDERS = ["single", "baseonly", "basefirst", "derivedfirst", "twice", "membe
 ACTIONS = ["DecorateClass", "DecorateMember", "MakeDataclass", "CheckMarkHit", "CheckMarkMiss", "WalkFuncLike",
            "WalkClassTaken", "WalkClassSkipped", "WalkData", "SetMark"]
 
-DEFAULTS = dict(Rule="nested", Mutant="none", Optimized=False, VB=["Fa"], VB2=["none"], VD=["Fa"], VO=["none"],
-                VI=["none"], VDeep=["none"], Aliases=["none"], DCs=["none"], Orders=["single"],
-                Confs=["D", "O0", "N"], Free=False, MaxOps=2, Emit=True)
+GROUP_DEFAULTS = dict(VB=["Fa"], VB2=["none"], VD=["Fa"], VO=["none"], VI=["none"], VDeep=["none"], Aliases=["none"],
+                      DCs=["none"], Orders=["single"], Confs=["D", "O0", "N"], Free=False, MaxOps=2)
+GROUP_FIELDS = ["VB", "VB2", "VD", "VO", "VI", "VDeep", "Aliases", "DCs", "Orders", "Confs", "Free", "MaxOps"]
 
 
-def _cfg(consts, invariants):
-    c = dict(DEFAULTS)
+def _tla(v):
+    if isinstance(v, bool):
+        return "TRUE" if v else "FALSE"
+    if isinstance(v, int):
+        return str(v)
+    if isinstance(v, str):
+        return f'"{v}"'
+    return tla_set(v)
+
+
+def _model(d, name, groups, consts, invariants):
+    """a model module  <name>.tla  (EXTENDS ClassDecor, defines the groups: a .cfg file cannot hold
+    records) and its configuration; returns (spec path, cfg path)."""
+    defs = []
+    for label, g in groups:
+        full = dict(GROUP_DEFAULTS)
+        full.update(g)
+        defs.append(f'Group("{label}", ' + ", ".join(_tla(full[f]) for f in GROUP_FIELDS) + ")")
+    mod = (f"---- MODULE {name} ----\nEXTENDS ClassDecor\nGroupsDef == {{\n  " + ",\n  ".join(defs) + " }\n====\n")
+    spec = write_file(d, f"{name}.tla", mod)
+    c = dict(Rule="nested", Mutant="none", Optimized=False, Emit=True)
     c.update(consts)
-    lines = ["SPECIFICATION Spec", "CONSTANTS"]
-    for k, v in c.items():
-        if isinstance(v, bool):
-            lines.append(f"  {k} = {'TRUE' if v else 'FALSE'}")
-        elif isinstance(v, int):
-            lines.append(f"  {k} = {v}")
-        elif isinstance(v, str):
-            lines.append(f'  {k} = "{v}"')
-        else:
-            lines.append(f"  {k} = {tla_set(v)}")
-    for inv in invariants:
-        lines.append(f"INVARIANT {inv}")
-    lines.append("CHECK_DEADLOCK FALSE")
-    return "\n".join(lines) + "\n"
+    lines = ["SPECIFICATION Spec", "CONSTANTS"] + [f"  {k} = {_tla(v)}" for k, v in c.items()]
+    lines.append("  Groups <- GroupsDef")
+    lines += [f"INVARIANT {inv}" for inv in invariants] + ["CHECK_DEADLOCK FALSE"]
+    cfg = write_file(d, f"{name}.cfg", "\n".join(lines) + "\n")
+    return spec, cfg
 
 
 # ====================================================================== concretiser (child side)
@@ -606,8 +616,8 @@ def _cases_from_rows(rows, alt_rows=None, start_no=0):
                 if key not in table:
                     raise tlc.TLCMachineryError(f"row for prefix {h[:i]} of {h} missing in TLC output")
                 chain.append(table[key])
-            case = {"no": start_no + len(cases), "u": r["u"], "classes": r["classes"], "rows": chain}
-            if alt:
+            case = {"no": start_no + len(cases), "group": r["group"], "u": r["u"], "classes": r["classes"], "rows": chain}
+            if alt and (uk, json.dumps(h, sort_keys=True)) in alt:
                 case["alt_rows"] = [alt[(uk, json.dumps(h[:i], sort_keys=True))] for i in range(len(h) + 1)]
             cases.append(case)
     return cases
@@ -619,7 +629,9 @@ def _fmt_op(op, case):
     if op["t"] == "C":
         return f"beartype({conf})({names[op['c']]})" if conf else f"beartype({names[op['c']]})"
     if op["t"] == "M":
-        return f"{names[op['c']]}.<slot {op['i']}> = beartype({conf})(...)"
+        mem = {(1, 1): "a", (2, 1): "b"}.get((op["c"], op["i"]), f"<slot {op['i']}>")
+        deco = f"beartype({conf})" if conf else "beartype"
+        return f"{names[op['c']]}.{mem} = {deco}({names[op['c']]}.__dict__['{mem}'])"
     return f"dataclass({names[op['c']]})"
 
 
@@ -662,20 +674,20 @@ def _report(rep, case, res, origin):
         rep.spec_drift(dmsg)
 
 
-def _run_group(d, label, consts, invariants=None):
+def _run_model(d, name, groups, consts, invariants=None, workers=16):
     invs = (INVARIANTS if invariants is None else invariants) + ["EmitRows"]
-    cfg = write_file(d, f"cd_{label}.cfg", _cfg(consts, invs))
-    return tlc.run_tlc("ClassDecor.tla", cfg, coverage=True, workers=4)
+    spec, cfg = _model(d, name, groups, consts, invs)
+    return tlc.run_tlc(spec, cfg, coverage=True, workers=workers)
 
 
-# one configuration for all spec mutants: unmutated it satisfies every invariant (checked), each
-# mutant must violate one of the clauses named for it
-MUTANT_BASE = dict(VD=["Fa", "Ca", "Fu"], VI=["none", "Sa"], Aliases=["none", "Aux", "DerivedAux"],
-                   Orders=["single", "memberclass", "membertwice"], Confs=["D", "N"], Emit=False)
+# one configuration for all spec mutants (DefaultGroups of ClassDecor.tla; unmutated it is part of the
+# main run as group "default" and satisfies every invariant): each mutant must violate a clause named for it
+DEFAULT_GROUP = ("default", dict(VD=["Fa", "Ca", "Fu"], VI=["none", "Sa"], Aliases=["none", "Aux", "DerivedAux", "Self"],
+                                 Orders=["single", "memberclass", "membertwice"], Confs=["D", "N"]))
 MUTANTS = [
     ("inherited", ["InheritedUntouched", "RouteEq"], dict(Mutant="inherited")),
-    ("alias", ["AliasUntouched", "RouteEq"], dict(Mutant="alias")),
-    ("prefix-rule-0.23.0", ["AliasUntouched", "RouteEq"], dict(Rule="prefix")),
+    ("alias", ["AliasUntouched", "RouteEq", "ReturnsSelf"], dict(Mutant="alias")),
+    ("prefix-rule-0.23.0", ["AliasUntouched", "RouteEq", "ReturnsSelf"], dict(Rule="prefix")),
     ("doublewrap", ["FuncIdempotent", "DepthOne"], dict(Mutant="doublewrap")),
     ("cm2func", ["KindKept", "RouteEq"], dict(Mutant="cm2func")),
     ("nometa", ["WrapsOriginal"], dict(Mutant="nometa")),
@@ -686,22 +698,19 @@ MUTANTS = [
 
 def _submit_mutants(d, ex):
     futs = {}
-    for label, invs, consts in [("(unmutated)", INVARIANTS, {})] + MUTANTS:
-        c = dict(MUTANT_BASE)
+    for label, invs, consts in MUTANTS:
+        c = dict(Rule="nested", Mutant="none", Optimized=False, Emit=False)
         c.update(consts)
-        cfg = write_file(d, f"mut_{label.strip('()')}.cfg", _cfg(c, invs))
-        futs[label] = (invs, ex.submit(tlc.run_tlc, "ClassDecor.tla", cfg, workers=2))
+        lines = ["SPECIFICATION Spec", "CONSTANTS"] + [f"  {k} = {_tla(v)}" for k, v in c.items()]
+        lines += ["  Groups <- DefaultGroups"] + [f"INVARIANT {inv}" for inv in invs] + ["CHECK_DEADLOCK FALSE"]
+        cfg = write_file(d, f"mut_{label}.cfg", "\n".join(lines) + "\n")
+        futs[label] = (invs, ex.submit(tlc.run_tlc, "ClassDecor.tla", cfg, workers=2, heap="1g"))
     return futs
 
 
 def _check_mutants(rep, futs):
     for label, (invs, f) in futs.items():
         res = f.result()
-        if label == "(unmutated)":
-            if res.violated:
-                rep.machinery(f"ClassDecor.tla (intended design) violates {res.violated} on the mutant configuration")
-            rep.tlc(res, "ClassDecor mutant base configuration")
-            continue
         if res.violated not in invs:
             rep.machinery(f"spec mutant {label} is not rejected by {invs} (TLC: {res.violated}): "
                           f"ClassDecor.tla is vacuous for that clause")
@@ -715,13 +724,14 @@ def _groups(tier):
     g = []
     main_orders = ["single", "twice", "memberclass", "classmember", "membertwice", "basefirst", "derivedfirst"]
     g.append(("derived", dict(VD=ALLV, Orders=main_orders)))
-    g.append(("base", dict(VB=ALLV, VD=["Fa", "Cu"] if q else ["Fa", "Cu", "Pua"],
+    g.append(("base", dict(VB=ALLV, VD=["Fa"] if q else ["Fa", "Cu", "Pua"],
                            VO=["none", "Pu"] if q else ["none", "Fa", "Pu", "Sa", "Dt"],
                            Orders=["single", "basefirst", "derivedfirst", "basemember"] if q else
                            ["baseonly", "single", "basefirst", "derivedfirst", "basemember"])))
     g.append(("nested", dict(VI=ALLV, VDeep=["none", "Paa"] if q else ["none"] + some,
                              VD=["Fa"] if q else ["Fa", "Pu"],
-                             Orders=["single", "innerfirst", "outerfirst", "twice"])))
+                             Orders=["single", "innerfirst", "outerfirst"] if q else
+                             ["single", "innerfirst", "outerfirst", "twice"])))
     g.append(("alias", dict(Aliases=["Aux", "DerivedAux", "Base", "Self"], VD=["Fa", "Pu"], VI=["none", "Ca"],
                             Orders=["single", "twice", "basefirst", "derivedfirst"])))
     g.append(("dataclass", dict(DCs=["B", "D"], VD=["Fa", "Paa", "Cu"] if q else some, VB=["Fa", "Su"] if q else some,
@@ -735,10 +745,11 @@ def _groups(tier):
         g.append(("free-o0", dict(Free=True, MaxOps=3, VB=["Fa"], VD=["Pua"], VI=["none"], Orders=[], Confs=["D", "O0"])))
         g.append(("base-x-derived", dict(VB=FUNCV, VD=FUNCV, Orders=["basefirst", "derivedfirst", "twice"], Confs=["D", "N"])))
         g.append(("deep", dict(VI=some, VDeep=ALLV, VD=["Fa"], Orders=["single", "innerfirst", "outerfirst"])))
+    g.append(DEFAULT_GROUP)
     return g
 
 
-OPT_GROUP = dict(Optimized=True, VD=["Fa", "Ca", "Sa", "Paaa", "Fu"], VI=["none", "Fa"], Aliases=["none", "DerivedAux"],
+OPT_GROUP = dict(VD=["Fa", "Ca", "Sa", "Paaa", "Fu"], VI=["none", "Fa"], Aliases=["none", "DerivedAux"],
                  DCs=["none", "D"], Orders=["single", "twice", "memberclass", "membertwice", "basefirst", "dcbefore"],
                  Confs=["D", "O0", "N"])
 
@@ -761,7 +772,10 @@ def run(rep, tier, seed):
         "the exception class, which decoration built a wrapper",
     ]
     import beartype  # noqa: F401   (children fork from here)
+    import time
     rnd = random.Random(seed)
+    t0 = time.time()
+    phases = rep.cov.setdefault("phase_s", {})
     import multiprocessing as mp
     # persistent workers, forked now while this process is small (a fork per case costs far more than a case:
     # every generated class has a process-unique name, so cases need no isolation from each other)
@@ -769,36 +783,26 @@ def run(rep, tier, seed):
         tlc.sany("ClassDecor.tla")
         mut_futs = _submit_mutants(d, ex)
         groups = _groups(tier)
-        futs = [(label, consts, ex.submit(_run_group, d, label, consts)) for label, consts in groups]
+        fut_main = ex.submit(_run_model, d, "C13Main", groups, {})
         # the 0.23.0 rule, rows only: used to explain mismatches of the alias group
-        alias_consts = dict(next(c for l, c in groups if l == "alias"))
-        alias_consts["Rule"] = "prefix"
-        fut_alt = ex.submit(_run_group, d, "alias023", alias_consts, [])
-        opt_fut = ex.submit(_run_group, d, "optimized", OPT_GROUP)
+        fut_alt = ex.submit(_run_model, d, "C13Alias023", [g for g in groups if g[0] in ("alias", "default")],
+                             dict(Rule="prefix"), [], 4)
+        opt_fut = ex.submit(_run_model, d, "C13Optimized", [("optimized", OPT_GROUP)], dict(Optimized=True), None, 4)
+        res = fut_main.result()
+        rep.tlc(res, "ClassDecor, all groups: " + ", ".join(l for l, _ in groups))
+        if res.violated:
+            rep.machinery(f"ClassDecor.tla (intended design) violates {res.violated}: the specification itself is wrong")
+        cov = {a: res.coverage.get(a, (0, 0))[1] for a in ACTIONS}
+        ares = fut_alt.result()
+        rep.tlc(ares, "ClassDecor alias+default groups, Rule=prefix (0.23.0 model, rows only)")
+        if ares.coverage.get("RecursionOverflow", (0, 0))[1] == 0:
+            rep.machinery("the Rule=prefix run never reached RecursionOverflow")
+        all_cases = _cases_from_rows(res.printed, ares.printed)
+        if not all_cases:
+            rep.machinery("TLC printed no rows")
+        phases["tlc_main_and_alt"] = round(time.time() - t0, 1)
         _check_mutants(rep, mut_futs)
-        cov = {a: 0 for a in ACTIONS}
-        all_cases = []
-        for label, consts, f in futs:
-            res = f.result()
-            rep.tlc(res, f"ClassDecor {label}")
-            if res.violated:
-                rep.machinery(f"ClassDecor.tla (intended design) violates {res.violated} in group {label}: "
-                              f"the specification itself is wrong")
-            for a in ACTIONS:
-                cov[a] += res.coverage.get(a, (0, 0))[1]
-            alt_rows = None
-            if label == "alias":
-                ares = fut_alt.result()
-                rep.tlc(ares, "ClassDecor alias, Rule=prefix (0.23.0 model, rows only)")
-                alt_rows = ares.printed
-                if ares.coverage.get("RecursionOverflow", (0, 0))[1] == 0:
-                    rep.machinery("the Rule=prefix run never reached RecursionOverflow")
-            cases = _cases_from_rows(res.printed, alt_rows, start_no=len(all_cases))
-            if not cases:
-                rep.machinery(f"group {label}: TLC printed no rows")
-            for c in cases:
-                c["group"] = label
-            all_cases += cases
+        phases["mutants_done"] = round(time.time() - t0, 1)
         zero = [a for a, n in cov.items() if n == 0]
         if zero:
             rep.machinery(f"vacuous TLC runs: actions never taken: {zero}")
@@ -809,6 +813,7 @@ def run(rep, tier, seed):
         chunks = _chunks([all_cases[i] for i in order], 24)
         results = [r for ch in pool.map(_replay_chunk, chunks, chunksize=1) for r in ch]
         rep.note(f"replayed {len(all_cases)} histories")
+        phases["replay_done"] = round(time.time() - t0, 1)
         stats = {}
         by_no = {c["no"]: c for c in all_cases}
         for r in results:
@@ -831,6 +836,8 @@ def run(rep, tier, seed):
         if ores.violated:
             rep.machinery(f"ClassDecor.tla violates {ores.violated} with Optimized=TRUE")
         ocases = _cases_from_rows(ores.printed, None, start_no=len(all_cases))
+        for c in ocases:
+            c["group"] = "optimized"
         if tier == "quick" and len(ocases) > 400:
             ocases = rnd.sample(ocases, 400)
         inp = write_file(d, "opt_cases.json", json.dumps(ocases))
@@ -841,6 +848,7 @@ def run(rep, tier, seed):
         if cp.returncode != 0 or not os.path.exists(outp):
             rep.machinery(f"python -O child failed: {cp.stderr[-1500:]}")
         ores_list = json.load(open(outp))
+        phases["optimized_child_done"] = round(time.time() - t0, 1)
         by_no = {c["no"]: c for c in ocases}
         for r in ores_list:
             case = by_no[r["no"]]
@@ -878,6 +886,8 @@ def replay(rep, path):
         print("no mismatch on this tree")
     _report(rep, case, res, "replay file")
     rep.level = "exploration"
+    rep.cov["rule"] = "replay of one recorded history of ClassDecor.tla through both decoration routes"
+    rep.sample({"universe": case["u"], "history": [_fmt_op(o, case) for o in case["rows"][-1]["hist"]]})
     rep.count(res["stats"]["calls"])
     rep.nontrivial("a")
     rep.nontrivial("b")
